@@ -233,18 +233,22 @@ func (w *writerA) implicitClose() {
 func (w *writerA) localWriters(rule string) {
 	c, r := w.c, w.c.R
 	n := 0
+	cands := map[*ssa.Function]bool{}
 	for _, g := range c.P.FuncList {
 		if g == w.nextWriter || g.Blocks == nil {
 			continue
 		}
-		if !callsDirectly(g, w.nextWriter) && !(callsDirectly(g, w.begin) && g != w.nextWriter) {
-			continue
-		}
-		if c.isNewHelper(g, 1) {
-			hs := c.hostsOf(g)
-			if !(len(hs) == 1 && hs[0] == g) {
-				continue // judged inside its callers
+		if callsDirectly(g, w.nextWriter) || callsDirectly(g, w.begin) {
+			for _, h := range c.hostsOf(g) { // an extracted helper is judged inside its callers
+				if h != w.nextWriter {
+					cands[h] = true
+				}
 			}
+		}
+	}
+	for _, g := range c.P.FuncList {
+		if !cands[g] {
+			continue
 		}
 		// the writer is handed to the caller: not this function's to close
 		handsOut := false
